@@ -102,3 +102,48 @@ pub fn check_client_body(sim: &Sim, who: &str, obs: &BodyObs) {
         sim.violation("C03/request-body-has-trailers", format!("{who}: request body carries a trailers frame"));
     }
 }
+
+/// Path construction under a channel origin with a path prefix (F, foreign peer view).
+pub fn run_origin(sim: &Sim, _idx: u64) {
+    use crate::peer::PeerSvc;
+    use crate::rawcodec::RawMsg;
+    let origin: &str = sim.pick(&["http://sim.test", "http://sim.test/", "http://sim.test/api", "http://sim.test/api/", "http://sim.test/a/b", "http://sim.test/a/b/", "https://sim.test:8443/v1", "http://sim.test//"]);
+    let shape = sim.draw(4) as usize;
+    let peer = PeerSvc::new(sim);
+    let mut client = crate::rawsvc::raw_client::RawClient::with_origin(peer.clone(), origin.parse().expect("harness: origin"));
+    let fut = async {
+        let m = RawMsg(bytes::Bytes::from_static(b"x"));
+        match shape {
+            0 => client.unary(tonic::Request::new(m)).await.map(|_| ()).map_err(|e| e.code()),
+            1 => client.client_stream(tonic::Request::new(crate::seams::MsgSource::new(sim, vec![m], 0))).await.map(|_| ()).map_err(|e| e.code()),
+            2 => client.server_stream(tonic::Request::new(m)).await.map(|_| ()).map_err(|e| e.code()),
+            _ => client.bidi(tonic::Request::new(crate::seams::MsgSource::new(sim, vec![m], 0))).await.map(|_| ()).map_err(|e| e.code()),
+        }
+    };
+    let mut fut = std::pin::pin!(fut);
+    let _ = simcore::drive(sim, fut.as_mut(), 1_000_000);
+    sim.nontrivial();
+    sim.sample(|| format!("origin {origin:?} shape {}", crate::c02::SHAPES[shape]));
+    let seen = peer.seen.lock().unwrap();
+    let Some(req) = seen.first() else {
+        return sim.violation("C03/no-request-on-wire", format!("origin {origin:?}: no request reached the transport"));
+    };
+    let method_path = format!("/sim.Raw/{}", crate::c02::SHAPES[shape]);
+    let prefix = origin.parse::<http::Uri>().unwrap().path().trim_end_matches('/').to_string();
+    let got = req.uri.as_ref().map(|u| u.path().to_string()).unwrap_or_default();
+    sim.ev(|| format!("origin {origin:?} -> request uri {:?}", req.uri));
+    if !got.ends_with(&method_path) {
+        sim.violation("C03/request-path-wrong", format!("origin {origin:?}: :path {got:?} does not end in {method_path:?}"));
+    } else if !got.starts_with(&prefix) || got.len() < prefix.len() + method_path.len() {
+        sim.violation("C03/request-path-wrong", format!("origin {origin:?}: the origin's path prefix {prefix:?} is missing from :path {got:?}"));
+    }
+    if !prefix.is_empty() {
+        sim.probe("origin-with-path-prefix");
+    }
+    if req.method != Some(http::Method::POST) {
+        sim.violation("C03/request-not-post", format!("origin {origin:?}: method {:?}", req.method));
+    }
+    if req.headers.get("te").map(|v| v.as_bytes()) != Some(b"trailers") || req.headers.get("content-type").map(|v| v.as_bytes()) != Some(b"application/grpc") {
+        sim.violation("C03/request-te-wrong", format!("origin {origin:?}: te {:?} content-type {:?}", req.headers.get("te"), req.headers.get("content-type")));
+    }
+}
